@@ -22,6 +22,20 @@ def obs (s : St) : String :=
 def kind? (w : String) : Option Bool :=
   if w == "n" then some true else if w == "c" then some false else none
 
+/-- the curve named by the init line: `curve=cp` (default) or `curve=ss amp=<n> d0=<dec> d1=<dec>`;
+    `none` = unparsable, `some none` = amp rejected at instantiate -/
+def curveOf (ws : List String) : Option (Option Curve) :=
+  let m := kvs ws
+  if lookupStr m "curve" "cp" == "cp" then some (some cpCurve)
+  else if lookupStr m "curve" == "ss" then
+    match lookupNat m "amp", lookupNat m "d0", lookupNat m "d1" with
+    | some amp, some d0, some d1 =>
+      if amp > U64MAX ∨ d0 > 255 ∨ d1 > 255 then none
+      else if Gen.PAIR_MIN_AMP ≤ amp ∧ amp ≤ Gen.PAIR_MAX_AMP then some (some (ssCurve amp d0 d1))
+      else some none
+    | _, _, _ => none
+  else none
+
 /-- `none`: unparsable; `some none`: the pair rejects the configuration at instantiate -/
 def initLine (ws : List String) : Option (Option St) :=
   let m := kvs ws
@@ -79,11 +93,11 @@ def parseOp (ws : List String) : Option Op :=
     | _, _ => none
   | _ => none
 
-def opLine (s : St) (ws : List String) : St × String :=
+def opLine (cv : Curve) (s : St) (ws : List String) : St × String :=
   match parseOp ws with
   | none => (s, "bad-op")
   | some op =>
-    match step cpCurve s op with
+    match step cv s op with
     | .ok s' => (s', "ok " ++ obs s')
     | .err => (s, "err " ++ obs s)
     | .panic => (s, "panic " ++ obs s)
